@@ -13,6 +13,7 @@ inductive Ty where
   | bool         -- `bool`
   | float        -- `float`
   | strToBool    -- `str_to_bool`
+  | toBool       -- local `to_bool`: strings through `str_to_bool`, anything else through `bool`
   | optInt       -- `optional_int`
   | memory       -- `FlowIR.memory_to_bytes`
   | qos          -- `FlowIR.str_to_kubernetes_qos`
